@@ -7,6 +7,7 @@ From SZ Require Import Sync.Nodes.
 From SZ Require Import Async.Core.
 From SZ Require Async.RateLimitProofs.
 From SZ Require Async.DelayProofs.
+From SZ Require Base.BridgeRateLimit.
 Import ListNotations.
 
 (* from Async.RateLimitProofs *)
@@ -88,4 +89,20 @@ Theorem C13_delay_no_stall : forall (interval : Z) (sync : bool) (acts : list ac
 Proof. exact (@delay_no_stall). Qed.
 End S_delay_no_stall_DelayProofs.
 Print Assumptions C13_delay_no_stall.
+
+(* from Base.BridgeRateLimit *)
+Section S_bridge_rl_next_BridgeRateLimit.
+Import SZ.Base.BridgeRateLimit.
+Theorem C13_bridge_rl_next : forall now next i : Z, KRateLimit.gen_rl_next now next i = fst (RateLimit.rl_slot now next i).
+Proof. exact (@bridge_rl_next). Qed.
+End S_bridge_rl_next_BridgeRateLimit.
+Print Assumptions C13_bridge_rl_next.
+
+(* from Base.BridgeRateLimit *)
+Section S_bridge_rl_delivery_BridgeRateLimit.
+Import SZ.Base.BridgeRateLimit.
+Theorem C13_bridge_rl_delivery : forall now next i : Z, (if KRateLimit.gen_rl_must_sleep now next then (now + KRateLimit.gen_rl_sleep_for now next)%Z else now) = snd (RateLimit.rl_slot now next i).
+Proof. exact (@bridge_rl_delivery). Qed.
+End S_bridge_rl_delivery_BridgeRateLimit.
+Print Assumptions C13_bridge_rl_delivery.
 
